@@ -47,6 +47,16 @@ def make_gen(weights, cfg_fn=None, nmin=8, nmax=40, shape=None, fault_fn=None):
     return gen_case
 
 
+def hook_faults(rng, cfg, prog):
+    """faults-on configuration (a fifth of the histories): an exception raised from a hook that runs inside flush, at a seeded ordinal;
+    the harness answers with the documented recovery, Session.rollback()"""
+    if rng.random() > 0.2:
+        return []
+    name = rng.choice(("persistent_to_deleted", "persistent_to_deleted", "pending_to_persistent", "before_flush", "after_flush",
+                       "after_flush_postexec", "before_insert", "before_update", "before_delete", "after_delete"))
+    return [["listener:" + name, rng.randint(1, 4), "raise"]]
+
+
 def txn_faults(rng, cfg, prog):
     """faults-on configuration for the transaction-boundary properties (a quarter of the histories): the driver's ROLLBACK or COMMIT
     fails, or an after_rollback hook raises, at a seeded ordinal"""
